@@ -49,6 +49,11 @@ def probe(keys):
 def die(how, v):
     if how == "exit":
         os._exit(v)
+    # an ignored disposition (e.g. SIGINT / SIGQUIT of a shell's background job) survives exec: ask for the default action
+    try:
+        signal.signal(v, signal.SIG_DFL)
+    except (OSError, ValueError):
+        pass
     os.kill(os.getpid(), v)
     time.sleep(30)
 
